@@ -115,7 +115,7 @@ pub open spec fn block_ops(v: PV, e: Env, b: PreflateTokenBlock, last: bool) -> 
 pub open spec fn tok_in_text(text: Seq<u8>, pos: int, t: PreflateToken) -> bool {
     match t {
         PreflateToken::Literal(l) => 0 <= pos < text.len() && text[pos] == l,
-        PreflateToken::Reference(r) => 0 < pos && pos + ref_len(r) <= text.len() && (r.irregular258 ==> ref_len(r) == 258) && r.dist >= 1,
+        PreflateToken::Reference(r) => 0 < pos && pos + ref_len(r) <= text.len() && (r.irregular258 ==> ref_len(r) == 258) && 1 <= r.dist <= 32768,
     }
 }
 pub open spec fn toks_pos(pos: int, ts: Seq<PreflateToken>) -> int
@@ -124,3 +124,38 @@ pub open spec fn toks_pos(pos: int, ts: Seq<PreflateToken>) -> int
 pub open spec fn toks_in_text(text: Seq<u8>, pos: int, ts: Seq<PreflateToken>) -> bool
     decreases ts.len()
 { if ts.len() == 0 { true } else { toks_in_text(text, pos, ts.drop_last()) && tok_in_text(text, toks_pos(pos, ts.drop_last()), ts.last()) } }
+
+/// the whole operation sequence of a token sequence contains the sequences of its prefixes and of each token, in order
+pub proof fn lemma_toks_ops_split(v: PV, e: Env, ts: Seq<PreflateToken>, k: int)
+    requires toks_ops(v, e, ts) is Some, 0 <= k < ts.len(),
+    ensures ({
+        let an = toks_ops(v, e, ts)->Some_0;
+        &&& toks_ops(v, e, ts.subrange(0, k)) matches Some(ak) && tok_ops(ak.1, e, ts[k]) matches Some(b)
+            && toks_ops(v, e, ts.subrange(0, k + 1)) == Some((ak.0 + b.0, b.1))
+            && ak.0.len() + b.0.len() <= an.0.len()
+            && an.0.subrange(ak.0.len() as int, (ak.0.len() + b.0.len()) as int) == b.0
+            && an.0.subrange(0, ak.0.len() as int) == ak.0
+    }),
+    decreases ts.len()
+{
+    let an = toks_ops(v, e, ts)->Some_0;
+    let pre = ts.drop_last();
+    let ap = toks_ops(v, e, pre)->Some_0;
+    let bl = tok_ops(ap.1, e, ts.last())->Some_0;
+    assert(an.0 == ap.0 + bl.0);
+    if k == ts.len() - 1 {
+        assert(ts.subrange(0, k) =~= pre);
+        assert(ts.subrange(0, k + 1) =~= ts);
+        assert(an.0.subrange(ap.0.len() as int, (ap.0.len() + bl.0.len()) as int) =~= bl.0);
+        assert(an.0.subrange(0, ap.0.len() as int) =~= ap.0);
+    } else {
+        lemma_toks_ops_split(v, e, pre, k);
+        assert(pre.subrange(0, k) =~= ts.subrange(0, k));
+        assert(pre.subrange(0, k + 1) =~= ts.subrange(0, k + 1));
+        assert(pre[k] == ts[k]);
+        let ak = toks_ops(v, e, ts.subrange(0, k))->Some_0;
+        let b = tok_ops(ak.1, e, ts[k])->Some_0;
+        assert(an.0.subrange(ak.0.len() as int, (ak.0.len() + b.0.len()) as int) =~= ap.0.subrange(ak.0.len() as int, (ak.0.len() + b.0.len()) as int));
+        assert(an.0.subrange(0, ak.0.len() as int) =~= ap.0.subrange(0, ak.0.len() as int));
+    }
+}
